@@ -224,7 +224,7 @@ func (x *layoutX) hasWireOpsStmt(s ast.Stmt) bool {
 	ast.Inspect(s, func(n ast.Node) bool {
 		if c, ok := n.(*ast.CallExpr); ok {
 			f := core.Callee(x.info, c)
-			if writeKind(f) != "" || readKind(f) != "" || x.delegate(c) != nil {
+			if writeKind(f) != "" || readKind(f) != "" || x.delegate(c) != nil || x.wireHelper(c) != nil {
 				found = true
 			}
 		}
@@ -269,6 +269,38 @@ func (x *layoutX) delegate(c *ast.CallExpr) *core.FuncInfo {
 	return fi
 }
 
+// wireHelper: call of a function of the codec's own package that is handed the byte buffer and itself performs
+// wire operations (a shared header encoder/decoder). Its operations are part of the caller's layout, in place.
+func (x *layoutX) wireHelper(c *ast.CallExpr) *core.FuncInfo {
+	f := core.Callee(x.info, c)
+	fi := x.w.Info(f)
+	if fi == nil || fi.Pkg != x.fn.Pkg || fi.Decl.Body == nil || fi == x.fn || x.depth <= 0 {
+		return nil
+	}
+	if f.Name() == "Encode" || f.Name() == "Decode" {
+		return nil
+	}
+	takesBuf := false
+	sig := f.Type().(*types.Signature)
+	for i := 0; i < sig.Params().Len(); i++ {
+		t := sig.Params().At(i).Type()
+		if p, ok := t.(*types.Pointer); ok {
+			t = p.Elem()
+		}
+		if n, ok := t.(*types.Named); ok && n.Obj().Name() == "ByteBuffer" && n.Obj().Pkg() != nil && n.Obj().Pkg().Path() == pBytes {
+			takesBuf = true
+		}
+	}
+	if !takesBuf {
+		return nil
+	}
+	sub := &layoutX{w: x.w, fn: fi, info: fi.Pkg.TypesInfo, dir: x.dir, depth: x.depth - 1}
+	if !sub.hasWireOpsStmt(fi.Decl.Body) {
+		return nil
+	}
+	return fi
+}
+
 // expr scans an expression for wire operations in evaluation order.
 func (x *layoutX) expr(e ast.Expr, guard string, lhs ast.Expr) {
 	ast.Inspect(e, func(n ast.Node) bool {
@@ -289,6 +321,24 @@ func (x *layoutX) expr(e ast.Expr, guard string, lhs ast.Expr) {
 					} else {
 						o.Guard = guard
 					}
+				}
+				x.ops = append(x.ops, o)
+			}
+			x.undec = append(x.undec, und...)
+			return false
+		}
+		if h := x.wireHelper(c); h != nil {
+			ops, und := extractLayout(x.w, h, x.dir, x.depth-1)
+			for _, o := range ops {
+				if guard != "" {
+					if o.Guard != "" {
+						o.Guard = guard + "&&" + o.Guard
+					} else {
+						o.Guard = guard
+					}
+				}
+				if o.Fn == nil {
+					o.Fn = h
 				}
 				x.ops = append(x.ops, o)
 			}
@@ -369,6 +419,20 @@ func (x *layoutX) valueInfo(e ast.Expr, depth int) (fields []string, scale, trun
 				if v.High != nil {
 					if c := core.ConstVal(x.info, v.High); c != nil {
 						trunc = c.ExactString()
+					}
+				}
+			case *ast.CallExpr:
+				// f(text) of the codec's package cutting its parameter to a constant: the truncation is in the helper
+				if g := x.w.Info(core.Callee(x.info, v)); g != nil && g.Pkg == x.fn.Pkg && g.Decl.Body != nil && len(v.Args) == 1 {
+					if ps := paramObjs(g); len(ps) == 1 {
+						ast.Inspect(g.Decl.Body, func(m ast.Node) bool {
+							if se, ok := m.(*ast.SliceExpr); ok && se.High != nil && core.ObjOf(g.Pkg.TypesInfo, se.X) == ps[0] {
+								if c := core.ConstVal(g.Pkg.TypesInfo, se.High); c != nil {
+									trunc = c.ExactString()
+								}
+							}
+							return true
+						})
 					}
 				}
 			case *ast.Ident:
